@@ -351,6 +351,9 @@ package stick
 // (heap closedness at entry, a fact of the language: a map stored in the scope stack has been allocated before)
 //@   assume closed: forall i :: 0 <= i && i < len(s.scope.scopes) ==> allocated(s.scope.scopes[i])
 //@   ensures own: err == nil ==> (forall i trig :: 0 <= i && i < len(s.scope.scopes) ==> s.scope.scopes[i] != ctx)
+// the with-hash is applied last (its entries win over call-site variables of the same name): the call-site variables
+// are copied while the context is still empty
+//@   at "s.scope.All()" first: forall k :: !mdom("map[string]Value", ctx, k)
 //@   asserts only: err == nil && node.Only ==> (forall k trig :: mdom("map[string]Value", ctx, k) ==> istype(with, "map[string]Value") && mdom("map[string]Value", unbox(with, "map[string]Value"), k))
 //@   loop 1 invariant only: ctx != nil && fresh(ctx) && (node.Only ==> (forall k trig :: mdom("map[string]Value", ctx, k) ==> istype(with, "map[string]Value") && mdom("map[string]Value", unbox(with, "map[string]Value"), k)))
 //@   requires xinv(s)
@@ -510,6 +513,7 @@ package stick
 //@   asserts@parse.OpBinaryNotEqual val: r1 == nil && istype(r0, "bool") && unbox(r0, "bool") == !(strspec(left) == strspec(right))
 //@   asserts@parse.OpBinaryStartsWith val: r1 == nil && istype(r0, "bool")
 //@   asserts@parse.OpBinaryConcat val: r1 == nil && istype(r0, "string") && len(unbox(r0, "string")) == len(strspec(left)) + len(strspec(right))
+//@   asserts@parse.OpBinaryFloorDiv val: r1 == nil && istype(r0, "float64") && unbox(r0, "float64") == floor(numspec(left) / numspec(right))
 //@   asserts@parse.OpBinaryModulo val: r1 == nil ==> istype(r0, "float64") && trunc(numspec(right)) != 0
 //@   asserts@parse.OpUnaryNot val: r1 == nil && istype(r0, "bool") && unbox(r0, "bool") == !truthspec(in)
 //@   asserts@parse.OpUnaryNegative val: r1 == nil && istype(r0, "float64") && unbox(r0, "float64") == 0 - numspec(in)
@@ -675,6 +679,8 @@ package stick
 //@   loop 2 invariant res != nil
 //@ func stick.(*state).self
 //@ func stick.execute
+// C18/C10: the root scope of the execution is the caller's own context map, or a map made for this call
+//@   at "newState(name, out, ctx, env)" private: ctx == old(ctx) || fresh(ctx)
 //@   propagates
 //@   ensures wfail: wfail() && !old(wfail()) ==> r0 != nil
 //@   ensures order: wafterfail() ==> old(wafterfail()) || old(wfail())
